@@ -334,10 +334,16 @@ def units(F, S):
         code = P(fn, 0)
         want = ("idx", ("mem", ("this",), "parentIndex"), ("op", "+", code, ("mem", ("this",), "nodeCount")))
         want2 = ("idx", ("mem", ("this",), "parentIndex"), ("op", "+", ("mem", ("this",), "nodeCount"), code))
+        # locals that hold a node position: declared NodeIndex, or (whatever integer type they are given) used to subscript
+        # the per-node tables
+        positions = set()
+        for (_nd, base, idx, _ext) in subscript_sites(fn):
+            if base in (("mem", ("this",), "subtreeCount"), ("mem", ("this",), "linkOrData")) and idx[0] == "var":
+                positions.add(idx)
         for nd in fn.nodes:
             if nd["k"] == "DeclStmt":
                 for d in nd.get("decls", []):
-                    if (d.get("td") or "").endswith("NodeIndex") and "init" in d:
+                    if "init" in d and "d" in d and ((d.get("td") or "").endswith("NodeIndex") or (d.get("iw") and ("var", d["n"], d["d"]) in positions)):
                         it = fn.xterm(d["init"])
                         if not mentions(it, code):
                             continue
